@@ -22,7 +22,7 @@ def corpus(c):
 
 
 def run(c):
-    c.lean(MODULES, THEOREMS, sources=["TLVerif.Codec.TL2", "TLVerif.Codec.TL2Lemmas"])
+    c.lean(MODULES, THEOREMS, sources=["TLVerif.Codec.TL2", "TLVerif.Codec.TL2Lemmas", "TLVerif.Codec.TL2RoundTrip"])
     model, schemas = t2.prepare(c, corpus(c))
     rng = c.rng
     per = 30 if c.thorough else 8
